@@ -85,11 +85,22 @@ def finish(res, t0, explanation, design_ref, complete_clauses=()):
             os.unlink(os.path.join(rdir, fn))
         except OSError:
             pass
+    # one report per (rule, site): further paths through the same construct are counted, not repeated
+    grouped = {}
+    for v in real:
+        k = (v["rule"], v["site"])
+        if k in grouped:
+            grouped[k]["paths"] += 1
+        else:
+            v["paths"] = 1
+            grouped[k] = v
+    real = list(grouped.values())
     for i, v in enumerate(real):
         p = os.path.join(rdir, "%d.json" % i)
         json.dump(v, open(p, "w"), indent=1, default=str)
         print("VIOLATION property=%s replay=%s" % (prop, p))
-        print("  rule %s at %s (%s): %s" % (v["rule"], v.get("loc"), v["site"], v["what"]))
+        print("  rule %s at %s (%s)%s: %s" % (v["rule"], v.get("loc"), v["site"],
+                                            " on %d paths" % v["paths"] if v["paths"] > 1 else "", v["what"]))
     nobs = len(res.obs)
     ndis = sum(1 for o in res.obs if o[2])
     samples = []
